@@ -15,6 +15,8 @@ GEN_QUAL = "GeneratorState"
 EMITTERS = {"asm", "sasm", "sasm_protected", "label", "inline", "comment", "dummy", "asm_save_y", "asm_restore_y", "push_code"}
 
 _cache = {}
+import re as _re0
+_re_field = _re0.compile(r"^self\.(\w+)(?:@\d+)?\.")
 
 
 def gen_fns(facts):
@@ -141,11 +143,74 @@ def container_hook(w, st, node, name, recv, args):
         r = node["recv"]
         if r.get("k") == "field" and r["base"].get("k") == "path" and r["base"]["segs"] == ["self"]:
             st.events.append({"kind": "fieldpush", "field": r["name"], "args": list(args), "node": node})
+        else:
+            # through an alias obtained from a field of self (e.g. `if let Some(v) = self.f.get_mut(k) { v.push(x) }`)
+            txt = recv.text if isinstance(recv, Unknown) else (recv.key if isinstance(recv, Sym) else "")
+            m = _re_field.match(txt or "")
+            if m:
+                st.events.append({"kind": "fieldpush", "field": m.group(1), "args": list(args), "node": node, "via_alias": True})
+            elif r.get("k") == "path" and len(r["segs"]) == 1:
+                st.events.append({"kind": "localpush", "var": r["segs"][0], "args": list(args), "node": node})
     return None
+
+
+def predicate_summaries(facts):
+    """Free functions (..., &ExprType, ...) -> bool: for which variants of the ExprType argument can
+    the result be true?  Computed from the function's own paths."""
+    key = ("preds", id(facts))
+    if key in _cache:
+        return _cache[key]
+    out = {}
+    allv = set(facts.enum_variants("ExprType"))
+    for f in facts.fns:
+        if f["qual"] or f["ret"].strip() != "bool":
+            continue
+        idx = [i for i, p in enumerate(f["params"]) if norm_ty(p["ty"]) == "ExprType"]
+        if len(idx) != 1:
+            continue
+        pname = f["params"][idx[0]]["name"]
+        w = Walker(facts, f)
+        may_true = set()
+        try:
+            outs = w.run()
+        except PathLimit:
+            continue
+        for o in outs:
+            v = o.value
+            if isinstance(v, Const) and v.v is False:
+                continue
+            d = domain_of(o.state, Sym(pname, "ExprType"), facts, universe=allv)
+            may_true |= (d if d is not None else allv)
+        out[f["name"]] = (idx[0], may_true)
+    _cache[key] = out
+    return out
+
+
+def predicate_hook(w, st, node, name, recv, args):
+    if node.get("k") != "call":
+        return None
+    preds = predicate_summaries(w.facts)
+    fname = name.split("::")[-1]
+    if fname not in preds:
+        return None
+    i, may_true = preds[fname]
+    if i >= len(args) or not isinstance(args[i], Sym):
+        return None
+    v = args[i]
+    uni = w.facts.enum_variants("ExprType")
+    outs = []
+    s1 = st.restrict(v.key, allowed=may_true, universe=uni)
+    if s1 is not None:
+        outs.append(Outcome("val", s1, Const(True)))
+    outs.append(Outcome("val", st, Const(False)))
+    return outs
 
 
 def combined_hook(w, st, node, name, recv, args):
     r = emission_hook(w, st, node, name, recv, args)
+    if r is not None:
+        return r
+    r = predicate_hook(w, st, node, name, recv, args)
     if r is not None:
         return r
     return container_hook(w, st, node, name, recv, args)
